@@ -12,7 +12,7 @@ def classify(case_line):
 CFG = dict(
     imports=["From Verif.C18 Require Import Model Spec.", "Open Scope N_scope."],
     checker="check_case",
-    n=dict(quick=300, thorough=12000),
+    n=dict(quick=250, thorough=12000),
     shard=15,
     classify=classify,
     rule="op sequences (6-40 ops) over 2-6 keys x 1-4 values on the real DeltaTracker[int,int] with valuesEqual = (==) "
@@ -22,7 +22,7 @@ CFG = dict(
          "(NoOp/UpdateDataplane/NoOpStopIteration) in the runtime's iteration order, both IterBatched variants with random "
          "applyFn answers (whole batch, partial, failing item, zero); all four views (Iter, Len, Get on 7 keys) dumped "
          "after every op through view handles taken once at creation, plus the batches applyFn was shown.  1/8 of the "
-         "tracker cases ('stream:dup') let the iterator produce a key twice; 1/40 of the cases ('stream:big') use 130-330 "
+         "tracker cases ('stream:dup') let the iterator produce a key twice; 1/40 of the cases ('stream:big') use 130-220 "
          "keys so that IterBatched's first loop fills batches of 128 mid-range; 1/5 of the cases (KCache) drive the real "
          "CachingMap[int,int] over a fake DataplaneMap with injected Load/Update/Delete failures, out-of-band writes, "
          "LoadCacheFromDataplane, ApplyUpdatesOnly/ApplyDeletionsOnly/ApplyAllChanges (real map and error count dumped "
